@@ -17,8 +17,9 @@ RULES = {
     'R6': 'both transports fill every slot of qb_ipcs_funcs / qb_ipcc_funcs that is called without a NULL test; peek and reclaim are both set or both unset',
     'R7': 'qb_ipcc_fd_get returns the event socket for socket transport and the setup socket otherwise; the server writes notification bytes to c->setup only under needs_sock_for_poll',
     'R8': 'a receive that is refused because the caller\'s buffer is too small changes nothing: the shm receive path (qb_rb_chunk_read) copies only after len >= chunk size, leaves the chunk, and gives the wait token it had taken back (= C07.R4) - otherwise the retry with a big enough buffer times out and every later response or event comes one late',
+    'R9': 'the ring under the shared-memory transport keeps an accepted message intact (= C01.R3, R8, R9 / C07.R1, R2, R6, R7, R9): the margin covers header and guard words, the step covers a partial last word, the consumer invalidates a chunk before it advances the read index, a peek gives its count back, and what commit writes behind a chunk never lands on a length word',
 }
-FLOORS = {'R1': 12, 'R2': 6, 'R3': 12, 'R4': 5, 'R5': 4, 'R6': 6, 'R7': 4, 'R8': 5}
+FLOORS = {'R9': 10, 'R1': 12, 'R2': 6, 'R3': 12, 'R4': 5, 'R5': 4, 'R6': 6, 'R7': 4, 'R8': 5}
 
 EMSGSIZE, EAGAIN = -90, -11
 
@@ -37,6 +38,17 @@ def run(ctx):
     c07.r4(sub, c01._magic_consts(ctx.prog))
     for r in sub.results:
         r['rule'] = 'R8'
+        ctx.results.append(r)
+    # R9 = what the shared-memory transport takes from the ring it is built on: margin, step and the consumer's order of stores
+    # (C01.R3, R8, R9) - a message that was accepted is only intact if the ring keeps it so
+    sub = type(ctx)(ctx.prog, ctx.prop, ctx.tier, ctx.depth)
+    magic = c01._magic_consts(ctx.prog)
+    c01.r3(sub, magic)
+    c01.r8(sub)
+    c07.r7(sub)
+    for r in sub.results:
+        r['key'] = 'ring:' + r['key']
+        r['rule'] = 'R9'
         ctx.results.append(r)
 
 
